@@ -320,15 +320,29 @@ def run(rep, tier):
     import concurrent.futures as cf
     # ProcessPoolExecutor (unlike Pool.map) notices a worker that died; a hung worker is bounded by the timeout below
     results = []
+    ex = cf.ProcessPoolExecutor(16, mp_context=ctx)
+
+    def abandon():
+        # workers stuck inside a call that never returns would make shutdown() wait for ever
+        for p in list(getattr(ex, "_processes", {}).values()):
+            try:
+                p.kill()
+            except Exception:  # noqa: BLE001
+                pass
+        ex.shutdown(wait=False, cancel_futures=True)
+
     try:
-        with cf.ProcessPoolExecutor(16, mp_context=ctx) as ex:
-            futs = [ex.submit(run_schedule, (s, pkg)) for s in scheds]
-            for s, f in zip(scheds, futs):
-                results.append(f.result(timeout=120))
+        futs = [ex.submit(run_schedule, (s, pkg)) for s in scheds]
+        for s, f in zip(scheds, futs):
+            results.append(f.result(timeout=120))
+        ex.shutdown(wait=True)
     except cf.process.BrokenProcessPool:
+        abandon()
         raise core.Inconclusive("a schedule worker process died; C01 judges crashes, this check only timing")
     except cf.TimeoutError:
-        rep.violation("call-never-returned", {"schedule": scheds[len(results)]}, "a blocking call did not return within 120 s (timeout %.2fs): %r" % (scheds[len(results)]["T"], scheds[len(results)]))
+        abandon()
+        rep.violation("call-never-returned", {"schedule": scheds[len(results)]}, "a call did not return within 120 s (timeout %.2fs): %r" % (scheds[len(results)]["T"], scheds[len(results)]))
+        sys.stdout.flush()
         os._exit(1 if rep.finish() else 1)
     noise = 0
     for s, r in zip(scheds, results):
